@@ -60,6 +60,9 @@ def gen_case(rng, car):
     if r < 0.67:                                   # leading / trailing Ellipsis
         x, N = gen_tt(rng, cplx, d=rng.choice([2, 3, 4, 5]))
         k = rng.randint(0, len(N))
+        if rng.random() < 0.15:                      # an Ellipsis that stands for NO mode, next to integers only: the scalar entry
+            ints = [("i", rand_int(rng, n_)) for n_ in N]
+            return Get(x, ([("e",)] + ints) if rng.random() < 0.5 else (ints + [("e",)])), "ellipsis-empty-all-int", None
         if rng.random() < 0.5:
             items = [("e",)] + gen_items(rng, N[len(N) - k:]) if k else [("e",)]
             return Get(x, items), "ellipsis-leading", None
